@@ -53,6 +53,9 @@ SMALL_VALID = [
 NEIGHBOUR_VOCAB = sorted({t for t in mutate.PY_VOCAB if t.strip() and "\n" not in t and not set(t) <= set("'\"f{")} | {"_", "b'b'", "f''", "None", "True", "|", "<", "->", "...", "type", "match", "case", "async", "await"})
 
 
+FSTRING_FIELD_FORMS = ["f'{x! r}'", "f'{x ! r}'", "f'{x!\\tr}'", "f'''{x!\\nr}'''", "f'{x!r !s}'", "f'{x!}'", "f'{x! }'", "f'{x:{y:{z:{w}}}}'", "f'{x:{y:{z:{w:{v}}}}}'", "f'{a:{b}{c:{d:{e}}}}'", "f'{x:{y:{z:>{w}}}}'", "f'{f'{a:{b:{c:{d}}}}'}'", "f'{x:'}'", 'f"{x:"}"', "f'''{x:'''}'''", "f'{x=!}'", "f'{x=:{y:{z:{w}}}}'"]
+
+
 def in_python_lexicon(src: str) -> bool:
     return NOT_PY.search(src) is None and "\x00" not in src and "﻿" not in src
 
@@ -205,6 +208,11 @@ def search(rec, ctx):
         check(rec, {"src": src, "stream": "fstring-mutation", "near": True})
 
     drive(st.randoms(use_true_random=False), fmut, ctx.budget(8000, 150000), ctx.hseed("fmut"))
+
+    # field forms at the edge of what CPython takes: blanks around '!', spec nesting depth, quotes inside specs
+    for src in ctx.shard(FSTRING_FIELD_FORMS):
+        for tmpl in ("{S}\n", "x = {S}\n", "f({S}, 1)\n"):
+            check(rec, {"src": tmpl.replace("{S}", src), "stream": "fstring-field-forms", "near": True})
 
     # ---- (c4) spellings and endings of small valid statements ---------------------------------------
     # every word of every statement respelled with NFKC-compatibility characters (a keyword spelled that way is no
